@@ -834,12 +834,14 @@ func c35CheckCtl(w *vx.W, x c35CtlCase) {
 
 func TestVerif_C35(t *testing.T) {
 	vx.Run(t, "C35", func(c *vx.Ctx) {
-		c.Rule("stream part: frame sequences over {HEADERS(valid head), HEADERS(trailers), DATA of 0/1/5 bytes, unknown types 0x21 / 0x40 / 0x1f*2^56+0x21, SETTINGS, GOAWAY, PUSH_PROMISE (thorough: + CANCEL_PUSH, MAX_PUSH_ID), HTTP/2-reserved types 0x02 0x09 (thorough: + 0x06 0x08)}: every sequence of length <= 2, every sequence of length 3 (thorough: 4) that starts with the head or with an unknown frame followed by the head; each with frame lengths encoded minimally and as 8-byte varints (quick: 8-byte only for sequences of <= 2 frames), and the stream FIN at EVERY byte offset of the encoded sequence; delivery: everything and FIN in one STREAM frame; for minimal encodings also with the last byte arriving together with FIN after the rest was consumed; sequences of length <= 2 also one byte per packet; played against the real server (request stream) and the real client (response stream of a RoundTrip) by a raw QUIC peer. control part: stream type in {control, push, QPACK encoder, QPACK decoder, reserved 0x21, 2-byte unknown, truncated varint} x every sequence of <= 2 (thorough: 3) control frames from a 23-entry alphabet (SETTINGS variants incl. duplicate / reserved HTTP/2 identifiers / content running past the frame, DATA, HEADERS, GOAWAY, CANCEL_PUSH, MAX_PUSH_ID, PUSH_PROMISE, unknown, HTTP/2-reserved) x {open, FIN} and a duplicate stream of the type, against server and client. non-trivial = the case ran to quiescence and the delivered body bytes, end-of-body error, stream reset code and connection close code were compared with the reference frame parser")
+		c.Rule("stream part: frame sequences over {HEADERS(valid head), HEADERS(trailers), DATA of 0/1/5 bytes, unknown types 0x21 / 0x40 / 0x1f*2^56+0x21, SETTINGS, GOAWAY, PUSH_PROMISE (thorough: + CANCEL_PUSH, MAX_PUSH_ID), HTTP/2-reserved types 0x02 0x09 (thorough: + 0x06 0x08)}: every sequence of length <= 2, every sequence of length 3 (thorough: and of length 4 over the quick alphabet) that starts with the head or with an unknown frame followed by the head; each with frame lengths encoded minimally and as 8-byte varints (quick: 8-byte only for sequences of <= 2 frames), and the stream FIN at EVERY byte offset of the encoded sequence; delivery: everything and FIN in one STREAM frame; for minimal encodings also with the last byte arriving together with FIN after the rest was consumed; sequences of length <= 2 also one byte per packet; played against the real server (request stream) and the real client (response stream of a RoundTrip) by a raw QUIC peer. control part: stream type in {control, push, QPACK encoder, QPACK decoder, reserved 0x21, 2-byte unknown, truncated varint} x every sequence of <= 2 (thorough: 3) control frames from a 23-entry alphabet (SETTINGS variants incl. duplicate / reserved HTTP/2 identifiers / content running past the frame, DATA, HEADERS, GOAWAY, CANCEL_PUSH, MAX_PUSH_ID, PUSH_PROMISE, unknown, HTTP/2-reserved) x {open, FIN} and a duplicate stream of the type, against server and client. non-trivial = the case ran to quiescence and the delivered body bytes, end-of-body error, stream reset code and connection close code were compared with the reference frame parser")
 		c.Assume("left open (recorded as outcomes, not judged): the error code used to refuse a message that does not start with HEADERS or contains a forbidden frame, HTTP/2-reserved frame types (skip or refuse), a frame *header* cut by FIN, FIN on a control stream, which of H3_FRAME_ERROR-carrying places reports a truncation (body Read error, RoundTrip error, stream reset code, connection close code all count)")
 		c.Assume("the QUIC layer delivers stream bytes and FIN faithfully (C19/C20); the in-memory network is loss-free")
 
+		alphaQuick := []string{"H", "T", "D0", "D1", "D5", "U21", "Ubig", "S", "G", "P", "R2", "R9"}
+		unknownQuick := []string{"U21", "Ubig"}
 		alpha := vx.Pick(c,
-			[]string{"H", "T", "D0", "D1", "D5", "U21", "Ubig", "S", "G", "P", "R2", "R9"},
+			alphaQuick,
 			[]string{"H", "T", "D0", "D1", "D5", "U21", "U40", "Ubig", "S", "G", "C", "P", "M", "R2", "R6", "R8", "R9"})
 		unknown := vx.Pick(c, []string{"U21", "Ubig"}, []string{"U21", "U40", "Ubig"})
 		maxLen := vx.Pick(c, 3, 4)
@@ -880,6 +882,10 @@ func TestVerif_C35(t *testing.T) {
 					return
 				}
 				for n := 3; n <= maxLen; n++ {
+					alpha, unknown := alpha, unknown
+					if n == 4 {
+						alpha, unknown = alphaQuick, unknownQuick
+					}
 					// H + (n-1) frames
 					if !vx.Strings(alpha, n-1, n-1, func(s []string) bool {
 						return emitSeq(append([]string{"H"}, s...))
